@@ -196,6 +196,19 @@ example : (window (⟨3, 4, fun i j => 10 * i + j⟩ : Arr Int) none (some (1, 3
     some (2, 3, 11) := by decide
 example : (window (⟨3, 4, fun i j => 10 * i + j⟩ : Arr Int) (some (2, 2)) (some (1, 3, 1, 4))).toOption.isNone = true := by decide
 
+/-- **`util.centroid` regenerated** (`Gen.centroid`: normalisation `img / np.sum(img)`, the grids of `np.mgrid[0:nr, 0:nc]`, which grid each
+`np.dot` pairs with the image and the order of the returned pair are re-translated from the source): the grid value of sample `(i, j)` is `i` in the
+first and `j` in the second returned component, and over any field the returned pair is (row numerator / total, column numerator / total) of
+`centroidNumK` — the quantities every centroid theorem of this file (and the default origin of C11) is stated about -/
+theorem centroid_regenerated {F : Type} [Field F] (a : Arr F) :
+    (∀ i j : Int, Gen.centroidGrid 0 i j = i ∧ Gen.centroidGrid 1 i j = j) ∧
+    centroidRC a = ((centroidNumK a).1 / (centroidNumK a).2.2, (centroidNumK a).2.1 / (centroidNumK a).2.2) := by
+  refine ⟨fun i j => ⟨by simp [Gen.centroidGrid], by simp [Gen.centroidGrid]⟩, ?_⟩
+  unfold centroidRC Gen.centroid centroidNumK Arr.total Gen.centroidWeight
+  simp only [sumRange_eq_sum, Gen.centroidGrid, zero_add, Int.cast_natCast, div_eq_mul_inv, ← mul_assoc, ← Finset.sum_mul]
+
+example : centroidRC (⟨2, 3, fun i j => if i = 0 ∨ j = 2 then 1 else 0⟩ : Arr ℚ) = (1 / 4, 5 / 4) := by decide +kernel
+
 /-! ## sub-array extraction -/
 
 /-- `subarray(a, (h, w), shift)` returns the `h × w` window whose sample `(i, j)` is the source sample at coordinate
